@@ -139,11 +139,16 @@ impl DownloadManifestBuilder {
         self.entries.push(entry);
 
         // Resize tag bit masks to accommodate new entry
+        let new_index = self.entries.len() - 1;
         let new_mask_size = self.entries.len().div_ceil(8);
         for tag in &mut self.tags {
             if tag.bit_mask.len() < new_mask_size {
                 tag.bit_mask.resize(new_mask_size, 0);
             }
+            // A new file starts without tags. Manifests written by other tools
+            // can have the padding bits of the last mask byte set, so the bit
+            // is cleared explicitly.
+            tag.remove_file(new_index);
         }
 
         Ok(self)
@@ -1138,6 +1143,43 @@ mod tests {
 
     fn create_test_encoding_key_3() -> EncodingKey {
         EncodingKey::from_hex("abcdef0123456789abcdef0123456789").expect("Operation should succeed")
+    }
+
+    #[test]
+    fn test_add_file_after_from_manifest_with_padding_bits() {
+        let ekey1 = create_test_encoding_key();
+        let ekey2 = create_test_encoding_key_2();
+
+        let mut manifest = DownloadManifestBuilder::new(1)
+            .expect("Operation should succeed")
+            .add_file(ekey1, 1024, 0)
+            .expect("Operation should succeed")
+            .add_tag("Windows".to_string(), TagType::Platform)
+            .add_tag("OSX".to_string(), TagType::Platform)
+            .associate_file_with_tag(0, "Windows")
+            .expect("Operation should succeed")
+            .build()
+            .expect("Operation should succeed");
+        // Other tools set the unused bits of the last mask byte
+        for tag in &mut manifest.tags {
+            tag.bit_mask[0] |= 0x7f;
+        }
+
+        let rebuilt = DownloadManifestBuilder::from_manifest(&manifest)
+            .add_file(ekey2, 2048, 1)
+            .expect("Operation should succeed")
+            .build()
+            .expect("Operation should succeed");
+
+        let files = |name: &str| -> Vec<usize> {
+            rebuilt
+                .entries_by_tag(name)
+                .into_iter()
+                .map(|(i, _)| i)
+                .collect()
+        };
+        assert_eq!(files("Windows"), vec![0]);
+        assert!(files("OSX").is_empty());
     }
 
     #[test]
